@@ -9,20 +9,20 @@ VERIF = os.path.dirname(os.path.dirname(os.path.abspath(__file__)))
 
 CLAIMS = {
     'C01': dict(
-        text='Deductive proof (Verus) of the cursor discipline of the sequential message parser and of the completeness / repetition-cap obligations at every Ok exit of the extracted parse_from_block4 bodies; known findings are listed, each with a proved restricted twin.',
+        text='Deductive proof (Verus) of the cursor discipline of the sequential message parser, of the completeness / repetition-cap obligations and of the field-count linearity obligation (every field occurrence handed out by the parser is stored in the returned value) at every Ok exit of the 30 extracted parse_from_block4 bodies.',
         note='Trusted: std string search/trim contracts in verus/prelude.rs, field parsers abstracted by the SwiftField trait contract, Verus/Z3.',
         design='DESIGN.md §4 C01', technique='contract-based deductive verification (Verus) of extracted real functions'),
     'C02': dict(
-        text='Deductive proof (Verus) that serialise∘parse is the identity on the string-component fields under contract and that message-level serialisers emit the fields in the order the parser consumes them; number/date formatting is an assumed external contract.',
+        text='Deductive proof (Verus) of a serialiser contract for every field struct (text == tag + components in the order and with the separators the parser reads) next to the exact-value clause of its parser, of the round-trip lemmas for dates / amounts / codes / numbering, and that the message-level serialisers emit the fields in the order the parser consumes them; number/date formatting and str::lines / str::split are assumed external contracts.',
         note='Trusted: prelude contracts, float/chrono formatting assumed, Verus/Z3.',
         design='DESIGN.md §4 C02', technique='contract-based deductive verification (Verus): encode/decode inverse lemmas over function contracts'),
     'C04': dict(
-        text='Deductive proof (Verus) that each extracted network-rule function returns its documented error code iff an independently written rule specification (from the SR2025 rule text) is violated, for all messages; code tables pinned.',
+        text='Deductive proof (Verus) that each extracted network-rule function returns its documented error codes iff an independently written rule specification (from the SR2025 rule text) is violated, for all messages, including the 23E code / additional-information / duplicate / order / forbidden-pair rules; code tables pinned. Rules left as declared assumptions (floating-point sums, iterator-adapter collections) are listed in the evidence.',
         note='Trusted: prelude contracts (Vec iteration idioms, String equality), f64 comparison uninterpreted, Verus/Z3.',
         design='DESIGN.md §4 C04', technique='contract-based deductive verification (Verus): rule function == rule spec function'),
     'C05': dict(
-        text='Deductive proof (Verus) of accept-sound / accept-complete / components-exact postconditions of the field primitives and field parsers under contract, for all UTF-8 strings.',
-        note='Trusted: std/chrono contracts in verus/prelude.rs (string slicing, integer parsing grammar, Unicode classes on ASCII), Verus/Z3. Field types not under contract are listed in the evidence.',
+        text='Deductive proof (Verus) of accept-sound / accept-complete / components-exact postconditions of the field primitives and of the parser of every field struct (89 parsers), for all UTF-8 strings.',
+        note='Trusted: std/chrono contracts in verus/prelude.rs (string slicing, lines/split, integer parsing grammar, Unicode classes on ASCII), Verus/Z3. The letter-less heuristics of the option enums are abstracted (C14).',
         design='DESIGN.md §4 C05', technique='contract-based deductive verification (Verus) of extracted real functions'),
     'C06': dict(
         text='Deductive proof (Verus) of the decidable part: decimal-shape guard of amount parsing, ISO-4217 exponent table for all strings, precision admitted <= precision emitted; value preservation through f64 formatting is assumed and listed.',
